@@ -1180,6 +1180,85 @@ def semicolon_project(rnd, mode, entry_long, seq):
     return proj
 
 
+SAMESTEM_PAIRS = [("src/messages.lua", "src/messages.json"), ("src/x.lua", "src/x.luau"), ("src/conf.yaml", "src/conf.toml"),
+                  ("src/lib/util.luau", "src/lib/util.json5"), ("src/data/strings.txt", "src/data/strings.yml"),
+                  ("src/mod/init.lua", "src/mod/init.luau")]
+
+
+def generic_project(rnd, mode, paths, adj, features, vtypes=None, extra=None):
+    """a project over given files (0 = entry; Lua or data by extension) with full module bodies"""
+    proj = {"mode": mode, "features": set(features), "files": {}, "nested": False, "excludes": [], "excluded": [], "shared": True}
+    proj.update(extra or {})
+    mods = [Mod(0, paths[0], "lua", "entry")]
+    for i, path in enumerate(paths[1:], 1):
+        ext = path.rsplit(".", 1)[1]
+        if ext in ("lua", "luau"):
+            mods.append(Mod(i, path, "lua", vtypes[i - 1] if vtypes else rnd.choice(["table", "func", "string", "table"])))
+        else:
+            mods.append(Mod(i, path, "data", "data"))
+    for i, targets in enumerate(adj):
+        mods[i].deps = list(targets)
+    for m in mods:
+        proj["files"][m.path] = ""
+    for m in mods:
+        if m.kind == "data":
+            m.text, m.doc = make_data(rnd, m.path.rsplit(".", 1)[1], m.path)
+            proj["files"][m.path] = m.text
+    for m in reversed(mods[1:]):
+        if m.kind == "lua":
+            proj["files"][m.path] = lua_module_text(proj, rnd, m, mods)
+    proj["files"][paths[0]] = entry_text(proj, rnd, mods[0], mods)
+    proj["entry"] = paths[0]
+    proj["reference"] = reference_text(proj, mods)
+    proj["graph"] = {m.path: (("data",) if m.kind == "data" else ("lua", list(m.sites), 1 if m.idx else None)) for m in mods}
+    proj["roots"] = list(mods[0].sites)
+    proj["modules"] = len(mods) - 1
+    return proj
+
+
+def samestem_project(rnd, mode, pair, order):
+    """two DISTINCT files with the same stem and different extensions (Lua + data, lua + luau, data + data),
+    both required - with their extension - by the entry and by a module, in either order, each observed by value"""
+    a, b = pair if order == 0 else (pair[1], pair[0])
+    user = "src/user.lua"
+    paths = ["src/main.lua", a, b, user]
+    # entry: a, b, user ; user: b, a
+    adj = [[1, 2, 3], [], [], [2, 1]]
+    if order == 2:
+        adj = [[3, 2, 1], [], [], [1, 2]]
+    proj = generic_project(rnd, mode, paths, adj, {"same-stem-different-extension", "same-stem:%s+%s" % (a.rsplit(".", 1)[1], b.rsplit(".", 1)[1])})
+    return proj
+
+
+def alias_precedence_project(rnd, mode, rc_at_root, seq):
+    """the same alias name in the nearest .luaurc and in the configuration, with different existing targets;
+    plus an alias only in the configuration and one only in .luaurc. Reference = the unchanged tree per mode:
+    luau mode takes the .luaurc target, path mode takes the configuration's (C15 finding path-luaurc-precedence)"""
+    rc_alias = {"@pkg": "src/vendor", "@rc": "src/rc"}
+    cfg_alias = {"@pkg": "src/fallback", "@only": "src/only"}
+    effective = dict(cfg_alias)
+    if mode == "luau":
+        effective.update(rc_alias)
+    else:
+        effective.update({k: v for k, v in rc_alias.items() if k not in cfg_alias})
+    win = effective["@pkg"]
+    paths = ["src/main.lua", win + "/lib.luau", "src/only/lib.lua", "src/rc/lib.luau", "src/sub/user.lua"]
+    adj = [[1, 2, 3, 4], [], [], [], [1, 3]]
+    loser = ("src/fallback" if win == "src/vendor" else "src/vendor") + "/lib.luau"
+    force = {("src/main.lua", paths[1]): "@pkg/lib", ("src/main.lua", paths[2]): "@only/lib", ("src/main.lua", paths[3]): "@rc/lib",
+             ("src/sub/user.lua", paths[1]): "@pkg/lib.luau", ("src/sub/user.lua", paths[3]): "@rc/lib"}
+    proj = generic_project(rnd, mode, paths, adj, {"alias-in-luaurc-and-configuration", "alias-precedence:" + mode},
+                           extra={"aliases": effective, "force_literal": force,
+                                  "alias_config": {k: "./" + posixpath.relpath(v, "src") for k, v in cfg_alias.items()}})
+    # the target that must NOT be bundled exists too, with an observably different value
+    proj["files"][loser] = 'return { name = "LOSER", inc = function() return -1 end, deps = function() return "" end }\n'
+    rcdir = "" if rc_at_root else "src"
+    rel = lambda d: "./" + (posixpath.relpath(d, rcdir or "."))
+    proj["files"][(rcdir + "/" if rcdir else "") + ".luaurc"] = json.dumps({"aliases": {k[1:]: rel(v) for k, v in rc_alias.items()}})
+    proj["loser"] = loser
+    return proj
+
+
 def data_holes_project(rnd, mode, fmt, holes):
     """the entry and a module require a data file whose sequences have nulls that are not last; the
     entry reads every index"""
@@ -1225,6 +1304,8 @@ def small_project(n, adj, mode="path", defect=None, paths=None):
     nf = {}
     if defect and defect[0] == "baddata":
         paths[defect[1]] = "src/m%d.%s" % (defect[1], defect[2])
+    if defect and defect[0] == "badext":
+        paths[defect[1]] = "src/m%d.png" % defect[1]
     for i in range(n):
         lines = ['local _P = "@@%s"' % paths[i]]
         sites = []
@@ -1270,6 +1351,9 @@ def small_project(n, adj, mode="path", defect=None, paths=None):
             elif defect[0] == "three":
                 text = text.rsplit("return", 1)[0] + "return 1, nil, 3\n"
                 kind = ("lua", sites, 3)
+            elif defect[0] == "badext":
+                text = "not a module\n"
+                kind = ("broken",)
             elif defect[0] == "baddata":
                 text = {"json": "{ \"a\": ", "json5": "{ a: ", "yaml": "a: [1, 2", "yml": "a: [1", "toml": "a = "}[defect[2]]
                 kind = ("broken",)
